@@ -1,30 +1,30 @@
-\* MC_mtu -- generated by mkcfg.py; payload lengths around the padding and buffer boundaries
+\* MC_resv -- generated by mkcfg.py; EVEN-PORT / RESERVATION-TOKEN: reservations, their 30 s life, token use by any client
 SPECIFICATION Spec
 VIEW View
 CONSTANTS
-  Clients = {"c1"}
+  Clients = {"c1", "c2"}
   Users = {"u1"}
   PeerIPs = {"A"}
   PeerPorts = {1}
   Fam <- MCFam
   ListenFam <- MCListenFam
   Strict = FALSE
-  ReqFams = {0}
+  ReqFams = {0, 4}
   ChanNums = {16384}
-  LifeReqs <- MCLifeAbsent
-  Txids = {"t1"}
-  Pays = {"p", "stunlike", "chanlike", "zeros"}
-  Lens <- MCLensMTU
+  LifeReqs <- MCLifeAbsent0
+  Txids = {"t1", "t2"}
+  Pays = {"p"}
+  Lens <- MCLenSmall
   InboundMTU = 1600
   PermSeqs <- MCPermSeqs1
-  DefaultLife = 5
-  PermTO = 2
-  ChanTO = 3
+  DefaultLife = 40
+  PermTO = 35
+  ChanTO = 35
   MaxLife = 3600
   Denied <- MCNoDenied
-  Toks = {"none"}
+  Toks = {"none", "even", "bogus", "c1", "c2"}
   ResvTO = 30
-  MaxDepth = 4
+  MaxDepth = 6
 CONSTRAINT DepthBound
 INVARIANTS TypeOK C01_NeverInstalled NoOrphans C08_Bijection C08_Range C19_ReservedOnce
 PROPERTIES C01_OnlyAuthorised C02_OnlyPermitted C04_Isolation C05_WithinLimitsDelivered C06_Exact C07_FullRestart C08_Conflict400 C19_SecondAllocate C19_TokenNeedsReservation
